@@ -346,6 +346,16 @@ def auth(scripts, cache):
 
 
 def judge_builders(ctx, rng, j):
+    # a third of the builder flows run in a process configured with every
+    # register export off (functions.flags[1..9] = False): the builders and
+    # locks work on the stack, not on the registers
+    off = j % 3 == 1
+    ctx.tab('builders_registers', 'off' if off else 'default')
+    with env.global_flags(env.REGISTERS_OFF if off else {}):
+        _judge_builders(ctx, rng, j)
+
+
+def _judge_builders(ctx, rng, j):
     functions, parsing, tools, _, _ = env.mods()
     t_ = tools
     seed, other = rbytes(rng, 32), rbytes(rng, 32)
